@@ -9,7 +9,7 @@ META = {
     "harness_bins": ["c12"],
     "extract": "C12.v",
     "technique": "Coq proof about an executable call-by-need abstract machine (thunk states Suspended/Blackholed/Evaluated, update frames, unwind, REPL session layer with per-input step budget): invariant black-holed = referenced by an update frame, soundness of memoised cells, and refinement of every session evaluation to a heap-free call-by-name evaluator of the stand-alone `let`-chain, for all histories including failed and abandoned evaluations; machine model and call-by-name spec are tied to the real ReplImpl / Program by differential replay of generated histories, and every input is also compared with a fresh stand-alone Program (direct oracle)",
-    "level_text": "Theorems (coq/Props/C12.v, closed under the global context, no axioms) quantify over EVERY history of inputs (let-definitions, eval, full eval, :query, eval_record_spine; each succeeding, failing at any depth, or abandoned after any number of machine steps = hook H1 budget) of the mechanism model coq/Mech/Machine.v (an executable reading of eval/mod.rs main loop, lazy.rs thunk states, stack.rs unwind, repl/mod.rs eval_): (1) blackhole_iff_on_stack: in every reachable configuration the black-holed thunks are exactly (multiset-exact) the thunks of the update frames; (2) unwind_clean / session_heap_good: after Drop/unwind no thunk is black-holed or locked and nothing else changed; (3) evaluated_cells_sound: every Evaluated thunk holds the call-by-name value of the closure it was created with; (4) session_equiv / session_equiv_full / session_equiv_query: an eval, a full evaluation or a :query in the session after any history yields the value / error class of the heap-free call-by-name meaning (coq/Mech/Spec.v) of `let x1 = e1 in ... in e`, and a reported InfiniteRecursion implies that this meaning diverges for every fuel (never spurious); session_vs_fresh: same outcome as the machine on an empty session whenever neither exhausts its budget; (5) the lock/unlock protocol of Program::eval_record_spine (eval_guarded) is modelled as a fifth input kind: every lock taken is released, also on the error / budget path (part of session_heap_good); (6) the machine without unwinding, and eval_guarded without the unlock on the error path, are refuted by vm_compute witnesses. Language of the model: variables, functions, let / let rec, integers, booleans, strict + - < with run-time type errors, if, recursive records with field access, std.seq, record merge `&` for records whose fields are standard thunks (a merged field gets a thunk over COPIES of the two sides' thunks, as Thunk::saturate / make_unique do; merging a record with a field that depends on a sibling is the explicit outcome EOutOfFragment), std.fail_with; divergence and genuine infinite recursion are derivable. The machine the theorems are about creates a copy of a black-holed thunk Suspended (proposed/C12-saturate-state.diff); the variant in which a copy keeps the state (the pinned code) is refuted by vm_compute witnesses (session_equiv_thunk_copy_refuted, thunk_copy_order_refuted) and is a known finding of the correspondence run (key thunk-copy-blackholed). The model and the spec are hand-written; the tie to /repo is the correspondence run: the same generated histories (exhaustive over an 8-input alphabet after a 2-definition prelude up to length 4 in the thorough tier, seeded samples) are run on the extracted model, on the extracted call-by-name spec, on the real ReplImpl (budgets via verif_hooks::set_fuel) and, input by input, on fresh stand-alone Programs; additionally `:load` histories and repeated evaluation of ONE Program are checked against the fresh-Program oracle only.",
+    "level_text": "Theorems (coq/Props/C12.v, closed under the global context, no axioms) quantify over EVERY history of inputs (let-definitions, eval, full eval, :query, eval_record_spine; each succeeding, failing at any depth, or abandoned after any number of machine steps = hook H1 budget) of the mechanism model coq/Mech/Machine.v (an executable reading of eval/mod.rs main loop, lazy.rs thunk states, stack.rs unwind, repl/mod.rs eval_): (1) blackhole_iff_on_stack: in every reachable configuration the black-holed thunks are exactly (multiset-exact) the thunks of the update frames; (2) unwind_clean / session_heap_good: after Drop/unwind no thunk is black-holed or locked and nothing else changed; (3) evaluated_cells_sound: every Evaluated thunk holds the call-by-name value of the closure it was created with; (4) session_equiv / session_equiv_full / session_equiv_query: an eval, a full evaluation or a :query in the session after any history yields the value / error class of the heap-free call-by-name meaning (coq/Mech/Spec.v) of `let x1 = e1 in ... in e`, and a reported InfiniteRecursion implies that this meaning diverges for every fuel (never spurious); session_vs_fresh: same outcome as the machine on an empty session whenever neither exhausts its budget; (5) the lock/unlock protocol of Program::eval_record_spine (eval_guarded) is modelled as a fifth input kind: every lock taken is released, also on the error / budget path (part of session_heap_good); (6) the machine without unwinding, and eval_guarded without the unlock on the error path, are refuted by vm_compute witnesses. Language of the model: variables, functions, let / let rec, integers, booleans, strict + - < with run-time type errors, if, recursive records with field access, std.seq, record merge `&` for records whose fields are standard thunks (a merged field gets a thunk over COPIES of the two sides' thunks, as Thunk::saturate / make_unique do; merging a record with a field that depends on a sibling is the explicit outcome EOutOfFragment), std.fail_with; divergence and genuine infinite recursion are derivable. The machine the theorems are about creates a copy of a black-holed thunk Suspended (proposed/C12-saturate-state.diff); the variant in which a copy keeps the state (the pinned code) is refuted by vm_compute witnesses (session_equiv_thunk_copy_refuted, thunk_copy_order_refuted) and is a known finding of the correspondence run (key thunk-copy-blackholed). The model and the spec are hand-written; the tie to /repo is the correspondence run: the same generated histories (exhaustive over an 8-input alphabet after a 2-definition prelude up to length 4 in the thorough tier, seeded samples) are run on the extracted model, on the extracted call-by-name spec, on the real ReplImpl (budgets via verif_hooks::set_fuel) and, input by input, on fresh stand-alone Programs; additionally `:load` histories, a re-used VmContext with imports, and scope histories (top-level definitions that rebind `std` or coincide with free variables of imported files, followed by inputs that make the interpreter go through the stdlib internals) are checked against the fresh-Program oracle only.",
     "level_note": "Trusted: Coq kernel (vm_compute only in the two _broken_refuted witnesses and Examples); extraction (ExtrOcamlBasic + ExtrOcamlNativeString); the hand-written reading of the Rust code in Machine.v (modelled, not verified: tied by correspondence only); hook H1; harness bin c12 and its s-expression -> Nickel printer; the generator. Modelling deviations, all stated in Machine.v: update_at_indices pops one frame per model step (Rust: all consecutive frames in one loop iteration); if-then-else uses one frame instead of Op1Cont + 2 Args; %force% (eval_full) and :query are drivers that start one machine run per thunk instead of re-scheduling inside one run (same thunks, same order, same values); ReplImpl's typechecking/unbound-identifier rejection is not modelled (generated inputs are well-scoped). session_equiv is proved for each of eval (weak head normal form), eval_full (deep data) and :query as the observed input, after histories containing all four input kinds. Outside the model (checked by the direct oracle of the correspondence run only, or not at all): `:load`, revertible thunks (recursive overriding: merge of records with dependent fields), contracts, arrays, strings, imports and the stdlib's own thunks are outside the model (the last only through std.fail_with in the differential run).",
 }
 
@@ -207,6 +207,123 @@ def gen_merge_history(rng, maxlen):
     return " ".join(out)
 
 
+# ------------------------------------------------------------------------------ scope histories
+
+def nk(src):
+    """An arbitrary Nickel expression as a term of the history language."""
+    import urllib.parse
+    return "(nk %s)" % urllib.parse.quote(src, safe="")
+
+
+# what a session may (re)bind `std` to -- the only stdlib module name a user can rebind (the
+# internals are bound under `$...` names, which are not identifiers)
+STD_SHADOWS = ['{ version = "mine" }', "5", "fun x => x", '{ array = { length = fun x => 0 }, contract = 1 }', '"s"', "[1]"]
+
+# inputs whose evaluation makes the interpreter itself go through the stdlib / the `$` internals
+# (array merge, every builtin contract, record contracts, polymorphic contracts, interpolation,
+# merge with priorities, structural equality, typed blocks, match); some fail on purpose
+INTERNAL_USES = [
+    "[1, 2] & [1, 2]", "[1, 2] & [1, 3]", "[[1], [2]] & [[1], [2]]",
+    "1 | Number", '"a" | Number', '"a" | String', "true | Bool", "1 | Dyn", "1 | Bool",
+    "[1, 2] | Array Number", '[1, "a"] | Array Number', "[[1]] | Array (Array Number)",
+    "{ a = 1 } | { a | Number }", '({ a = "x" } | { a | Number }).a', "{ a = 1, b = 2 } | { a | Number }",
+    "({ a = 1 } | { _ : Number }).a", '({ a = "x" } | { _ : Number }).a', "{ a = 1 } | { _ | Number }",
+    "'Foo | [| 'Foo, 'Bar |]", "'Baz | [| 'Foo, 'Bar |]", "'Foo 1 | [| 'Foo Number |]",
+    "((fun x => x) | Number -> Number) 1", '((fun x => "s") | Number -> Number) 1',
+    "((fun x => x) | forall a. a -> a) 1", "((fun x => 1) | forall a. a -> a) 2",
+    "((fun r => r) | forall r. { a : Number; r } -> { a : Number; r }) { a = 1, b = 2 }",
+    '"a%{"b"}c"', 'let v = 1 in "v=%{if v == 1 then "one" else "other"}"', '"x%{1}"',
+    "{ a | default = 1 } & { a = 2 }", "({ a | default = 1 } & { a = 2 }).a", "{ a = 1 } & { a = 2 }",
+    "[1, 2] == [1, 2]", "{ a = [1] } == { a = [1] }", "(1 + 1 : Number)", '(1 + "a" : Number)',
+    "let f : Number -> Number = fun x => x + 1 in f 1", "'A |> match { 'A => 1, _ => 2 }",
+    "{ a = 1, b | optional } | { a | Number, b | optional | String }", "[1, 2] @ [3]", "{ \"%{\"k\"}\" = 1 }",
+]
+
+# aliases of stdlib functions taken BEFORE `std` is shadowed, and their uses afterwards
+STD_ALIASES = [
+    ("len", "std.array.length", ["len [1, 2, 3]"]),
+    ("s", "std", ["s.array.length [1]", 's.string.join ", " ["a", "b"]', "s.is_number 1", "s.array.map (fun x => x + 1) [1, 2]"]),
+    ("tostr", "std.to_string", ["tostr 5", "tostr true"]),
+    ("amap", "std.array.map", ["amap (fun x => x + 1) [1, 2]"]),
+    ("fold", "std.array.fold_left", ["fold (fun a x => a + x) 0 [1, 2, 3]"]),
+    ("pred", "std.contract.from_predicate (fun x => x == 1)", ["1 | pred", "2 | pred"]),
+    ("fields", "std.record.fields", ["fields { a = 1, b = 2 }"]),
+    ("flt", "std.array.filter", ["flt (fun x => x > 1) [1, 2, 3]"]),
+]
+
+POOL = ["x", "y", "z", "w", "port", "host", "cfg"]
+
+
+def gen_scope_history(rng, maxlen):
+    """Sessions whose top-level definitions must NOT be visible to code that is closed under the
+    initial environment: the stdlib / internals (a session that rebinds `std`) and imported files
+    (whose free variables coincide with session definitions).  Direct oracle only."""
+    out = []
+    defined = []
+    aliases = []
+    # some ordinary definitions from the pool
+    for x in rng.shuffle(POOL)[: rng.range(1, 4)]:
+        out.append("(def %s %s)" % (x, nk(rng.choice(["8080", "1", '"h"', "{ v = 1 }", "[1, 2]", "fun a => a"]))))
+        defined.append(x)
+    # aliases of stdlib functions, taken before any shadowing
+    for name, src, uses in rng.shuffle(STD_ALIASES)[: rng.range(0, 3)]:
+        out.append("(def %s %s)" % (name, nk(src)))
+        aliases.append(uses)
+    shadow = rng.chance(3, 4)
+    if shadow:
+        out.append("(def std %s)" % nk(rng.choice(STD_SHADOWS)))
+    # files: free variables drawn from the session's names (and from names defined nowhere), or
+    # closed.  Every way a file is used below FORCES its free variable (the REPL typechecks an
+    # import against its own type environment, so an unbound identifier of a file is only found
+    # when it is evaluated; the stand-alone program finds it statically: same class only if forced)
+    files = []
+    for i in range(rng.range(0, 3)):
+        name = "g%d" % (i + 1)
+        v = rng.choice(defined + POOL + ["std"]) if rng.chance(3, 4) else None
+        if v is None:
+            body, shape = rng.choice([("[1, 2]", "any"), ("{ v = 1 + 1 }", "rec"), ("std.array.length [1, 2]", "any"),
+                                      ("[1] & [1]", "any"), ("1 | Number", "any")])
+        elif v == "std":
+            body, shape = rng.choice([("std.array.length [1, 2]", "any"), ("std.to_string 5", "any"), ("{ v = std.is_number 1 }", "rec")])
+        else:
+            body, shape = rng.choice([("[%s, [%s]]", "any"), ("{ v = %s }", "rec"), ("%s", "any"), ("fun a => [a, %s]", "fun"),
+                                      ("let q = 1 in { v = [q, %s] }", "rec")])
+            body = body.replace("%s", v)
+        out.append("(file %s %s)" % (name, nk(body)))
+        files.append((name, shape))
+    uses = []
+    for _ in range(rng.range(3, maxlen)):
+        c = rng.below(100)
+        if c < 45 or (not files and not aliases):
+            uses.append(rng.choice(INTERNAL_USES))
+        elif c < 65 and aliases:
+            uses.append(rng.choice(rng.choice(aliases)))
+        elif files:
+            f, shape = rng.choice(files)
+            forms = ['import "%s.ncl"', '[import "%s.ncl"]', 'let i = import "%s.ncl" in i']
+            if shape == "rec":
+                forms.append('(import "%s.ncl").v')
+            if shape == "fun":
+                forms = ['(import "%s.ncl") 1', '[(import "%s.ncl") 2]']
+            uses.append("!" + rng.choice(forms) % f)
+        else:
+            uses.append(rng.choice(INTERNAL_USES))
+    if shadow and rng.chance(1, 2):
+        uses.append(rng.choice(["std", "std.version", "std.array.length [1]"]))
+    if defined and rng.chance(1, 2):
+        uses.append(rng.choice(defined))
+    for u in uses:
+        k = "inf" if rng.chance(5, 6) else str(rng.choice([5, 20, 80, 300]))
+        force = u.startswith("!")          # imports are always evaluated fully
+        u = u.lstrip("!")
+        out.append("(%s %s %s)" % ("full" if force or rng.chance(2, 3) else "eval", k, nk(u)))
+        # a late (re)definition in the middle of the session
+        if rng.chance(1, 10):
+            x = rng.choice(POOL + ["std"])
+            out.append("(def %s %s)" % (x, nk(rng.choice(["1", "{ v = 2 }", '{ contract = { Equal = fun a b => b } }']))))
+    return " ".join(out)
+
+
 def gen_context_history(rng, maxlen):
     """Context mode (one VmContext re-used the way nickel::Context::with_vm does): files written to
     a scratch directory on the import path, then budgeted evaluations of terms importing them."""
@@ -304,6 +421,13 @@ def merge_class(inputs, j):
     return any("(merge " in i for i in inputs[: j + 1])
 
 
+def show_inp(inp):
+    """Readable form of an input: `(nk <percent-encoded>)` terms are decoded."""
+    import re
+    import urllib.parse
+    return re.sub(r"\(nk ([^ ()]*)\)", lambda m: "`" + urllib.parse.unquote(m.group(1)) + "`", inp)
+
+
 def key_of(inp):
     return inp.split(" ", 1)[0].strip("(")
 
@@ -376,8 +500,8 @@ def compare(ck, mode, cases, impl_out, model_out, spec_out):
                 # DIRECT ORACLE: the session answer differs from the fresh stand-alone program
                 after = "after-abandoned" if abandoned else ("after-failed" if failed else "plain")
                 ck.violation("session-vs-fresh:%s:%s" % (mode, after),
-                             "input %d `%s` gives `%s` in the session but `%s` as a stand-alone program" % (j, inp, s, o),
-                             {"case": case, "mode": mode, "input": j, "session": sess, "oracle": orac,
+                             "input %d `%s` gives `%s` in the session but `%s` as a stand-alone program" % (j, show_inp(inp), s, o),
+                             {"case": case, "readable": show_inp(case), "mode": mode, "input": j, "session": sess, "oracle": orac,
                               "how_to_replay": "./verif check C12 --replay <this file>"})
                 continue
             else:
@@ -536,14 +660,17 @@ def run(ck):
     # 3b. merges performed while a thunk is under evaluation (direct oracle; see gen_merge_history)
     mcases = [gen_merge_history(rng.fork(), 6) for _ in range(120 if quick else 3000)]
     run_stream(ck, "repl-merge", mcases, exe_impl, exe_model, with_model=True)
+    # 3c. scope: session definitions must stay invisible to the stdlib / internals and to imports
+    scases = [gen_scope_history(rng.fork(), 7) for _ in range(100 if quick else 2500)]
+    run_stream(ck, "repl-scope", scases, exe_impl, exe_model, with_model=False)
     # 4. one VmContext re-used for several sources importing the same files (nickel::Context)
     ccases = [gen_context_history(rng.fork(), 6) for _ in range(80 if quick else 1500)]
     run_stream(ck, "context", ccases, exe_impl, exe_model, with_model=False)
-    ck.coverage["traces_validated_against_impl"] = len(cases) + len(lcases) + len(pcases) + len(ccases) + len(mcases)
+    ck.coverage["traces_validated_against_impl"] = len(cases) + len(lcases) + len(pcases) + len(ccases) + len(mcases) + len(scases)
     ck.coverage["rule"] = ("history = sequence of REPL inputs (def / eval / full / query, each with a step budget K of hook H1 or unlimited; "
                            "K small = evaluation abandoned mid-way) generated from SplitMix64(VERIF_SEED): typed term generator with ~6% failing/ill-typed/diverging nodes, "
                            "followed by probes re-evaluating every definition; non-trivial = >= 3 inputs and at least one failed or abandoned input; distinct by text")
-    ck.coverage["partial"] = "`:load`, Program re-evaluation (incl. eval_record_spine) and the re-used VmContext with imports are checked by the direct oracle only (not in the Coq model)"
+    ck.coverage["partial"] = "`:load`, the re-used VmContext with imports, and the scope histories (session definitions shadowing `std` / coinciding with free variables of imported files, arbitrary Nickel inputs exercising the internals) are checked by the direct oracle only (not in the Coq model)"
     ck.trusted += ["extraction: ExtrOcamlBasic + ExtrOcamlNativeString", "harness bin c12 (s-expression -> Nickel printer)", "generator checks/c12.py"]
     ck.assumptions += ["hook H1 (step budget) aborts the evaluation loop exactly like any other evaluation error"]
 
@@ -554,4 +681,4 @@ def replay(ck, path):
     exe_model = ck.model("C12.v")
     if ok and exe_model and "case" in obj:
         mode = obj.get("mode", "repl")
-        run_stream(ck, mode if mode in ("program", "context") else "repl", [obj["case"]], core.harness_bin("c12"), exe_model, with_model=(mode in ("repl", "program", "repl-merge")))
+        run_stream(ck, mode if mode in ("program", "context") else "repl", [obj["case"]], core.harness_bin("c12"), exe_model, with_model=(mode in ("repl", "program", "repl-merge")))  # repl-scope / repl-load / context: direct oracle only
